@@ -139,6 +139,13 @@ Theorem C01_mate_sync : forall strats rejhdr cfg, c_legacy cfg = false -> forall
 Proof. exact mate_sync. Qed.
 Print Assumptions C01_mate_sync.
 
+(* ---- the log handle (log_handle=None is the API default, demux.py always passes one) is an input of the loader and no
+   result depends on it; all theorems above are stated for every cfg, hence for both values *)
+Theorem C01_log_independent : forall strats rejhdr cfg b pairs,
+  loader strats rejhdr (set_log b cfg) pairs = loader strats rejhdr cfg pairs.
+Proof. exact log_independent. Qed.
+Print Assumptions C01_log_independent.
+
 (* ---- what was wrong (D1): with the generic-exception arm of the unrepaired loader a pair whose strategy raises is
    written nowhere although a rejects handle exists, and the yield counter exceeds the records written *)
 Theorem C01_legacy_generic_arm_refuted :
